@@ -796,12 +796,29 @@ pub fn run(c: &Case) -> Outcome {
     Ok(obs)
 }
 
+/// bounded-exhaustive scope: every labelled digraph on 0..=3 nodes and undirected graph on 1..=4 nodes
+/// (loops included) x the 12 base states x 4 filter-mask pairs
+const ENUM_P: u64 = 12 * 4;
+fn enum_count(_tier: Tier) -> u64 {
+    (small_graph_count(3, 4) + 1) * ENUM_P
+}
+fn enum_make(_tier: Tier, i: u64) -> Case {
+    let p = i % ENUM_P;
+    let g = match small_graph(i / ENUM_P, 3, 4) {
+        Some((dir, n, mask)) => raw_explicit(dir, n, mask, 0),
+        // one more: the empty graph
+        None => RawGraph { directed: true, shape: 0, n: 0, k: 0, keys: Vec::new(), edges: Vec::new() },
+    };
+    let (nmask, emask) = [(0xffffu16, u64::MAX), (0x5555, 0xaaaa_aaaa_aaaa_aaaa), (0x0003, 0x0f0f_0f0f_0f0f_0f0f), (0xfffe, 1)][(p / 12) as usize];
+    Case { g, base: (p % 12) as u8, salt: (i % 251) as u8, nmask, emask }
+}
+
 pub fn property() -> Property {
     Property {
         id: "C06",
-        rule: "random multigraphs with loops (0..=9 nodes quick) stored in states produced by mutation: Graph renumbered by removals (u8/u16/u32/usize), StableGraph with node and edge vacancies, GraphMap after a remove/re-add, MatrixGraph with reused ids, Csr, adj::List; every edge carries a unique tag.  For each state the base reference and the adaptor views Reversed, Reversed<Reversed>, UndirectedAdaptor (directed bases; also over Reversed), NodeFiltered (closure / HashSet / FixedBitSet predicate), EdgeFiltered, Reversed over both filters, EdgeFiltered over Reversed, Frozen and the &mut delegations are handed to trait-generic checkers together with the expected (reversed / symmetrised / induced / restricted) graph: node_identifiers/node_references once each, node_count, to_index < node_bound, from_index inverse, exactly 0..bound for compact types, edge_references once each, EdgeIndexable round trip, neighbors / neighbors_directed / edges / edges_directed per node as multisets of (source, target, tag) under the documented orientation, is_adjacent for all ordered pairs, visit maps, DataMap, is_directed; non-trivial = a state with vacancies / reused ids, or a depth-2 view, with at least one edge; distinct by case fingerprint",
+        rule: "random multigraphs with loops (0..=9 nodes quick) stored in states produced by mutation: Graph renumbered by removals (u8/u16/u32/usize), StableGraph with node and edge vacancies, GraphMap after a remove/re-add, MatrixGraph with reused ids, Csr, adj::List; every edge carries a unique tag.  For each state the base reference and the adaptor views Reversed, Reversed<Reversed>, UndirectedAdaptor (directed bases; also over Reversed), NodeFiltered (closure / HashSet / FixedBitSet predicate), EdgeFiltered, Reversed over both filters, EdgeFiltered over Reversed, Frozen and the &mut delegations are handed to trait-generic checkers together with the expected (reversed / symmetrised / induced / restricted) graph: node_identifiers/node_references once each, node_count, to_index < node_bound, from_index inverse, exactly 0..bound for compact types, edge_references once each, EdgeIndexable round trip, neighbors / neighbors_directed / edges / edges_directed per node as multisets of (source, target, tag) under the documented orientation, is_adjacent for all ordered pairs, visit maps, DataMap, is_directed; non-trivial = a state with vacancies / reused ids, or a depth-2 view, with at least one edge; distinct by case fingerprint; bounded-exhaustive sub-check: every labelled digraph on 0..=3 nodes and undirected graph on 1..=4 nodes (loops included) x the 12 base states x 4 filter-mask pairs",
         assumptions: &["UndirectedAdaptor: a self-loop may be listed once or twice (not specified)"],
         both_profiles: false,
-        subs: vec![sub("views/all-types", 1_000_000, 20_000_000, strategy, run)],
+        subs: vec![sub("views/all-types", 1_000_000, 20_000_000, strategy, run), sub_enum("views/all-small-graphs", enum_count, enum_make, run)],
     }
 }
